@@ -212,7 +212,7 @@ def common(rng, g, cfg, a, allow_freq=True):
         a['wacc'] = rng.choice(cfg.get('waccs', [0.05, 0.1, 0.5]))
     if allow_freq:
         f = coarse_freq(rng, g, cfg)
-        if f is not None and cfg.get('coarse_windows') and rng.random() < 0.5:
+        if f is not None and cfg.get('coarse_windows') and rng.random() < cfg.get('p_coarse_window', 0.5):
             # a coarse asset with its own window: starts up to one coarse step before the horizon or inside it, lasts a whole number of
             # coarse steps (no incomplete last coarse interval) and may end inside or after the horizon
             pts = grid_points(g)
@@ -220,6 +220,8 @@ def common(rng, g, cfg, a, allow_freq=True):
             step = freq_td(g['freq'])
             m = int(round(freq_td(f) / step))
             k0 = rng.randint(-(m - 1), max(0, T - m))
+            if rng.random() < cfg.get('p_coarse_before', 0.0):
+                k0 = -rng.randint(1, 3 * m - 1)      # begins before the horizon, by any number of fine steps
             if rng.random() < cfg.get('p_coarse_early', 0.25):
                 k0 -= m * rng.randint(1, 2)          # running since one or two whole coarse steps before the horizon
             q = rng.randint(1, max(1, (T - k0) // m + 1))
